@@ -12,6 +12,7 @@ import (
 	"reflect"
 	"runtime"
 	"sort"
+	"time"
 
 	"github.com/aquilax/hranoprovod-cli/v3/verifshim"
 )
@@ -83,6 +84,7 @@ type Sched struct {
 	cur         *mthread
 	Trace       []string
 	Deadlock    bool
+	Stalled     bool        // see schedStall
 	Panics      []string    // panics of modelled threads
 	foreign     interface{} // an explorer sentinel that surfaced inside a thread
 	Steps       int
@@ -265,12 +267,22 @@ func (s *Sched) enabled() []transition {
 	return out
 }
 
+// schedStall: a thread was resumed and neither parked nor finished within the grace period - it blocks on something the
+// scheduler does not intercept (sync.Cond, a timer, a file lock ...). The scheduled execution is abandoned (Stalled);
+// callers skip the case instead of judging it.
+type schedStall struct{}
+
 func (s *Sched) runThread(t *mthread) {
 	s.cur = t
 	t.pending = nil
 	t.arrived = false
 	t.resume <- struct{}{}
-	<-s.yield
+	select {
+	case <-s.yield:
+	case <-time.After(20 * time.Second):
+		s.Stalled = true
+		panic(schedStall{})
+	}
 	s.cur = nil
 }
 
@@ -329,6 +341,13 @@ func (s *Sched) Run() {
 	defer func() {
 		verifshim.SendHook, verifshim.RecvHook, verifshim.SelectHook, verifshim.CloseHook, verifshim.GoHook = nil, nil, nil, nil, nil
 		verifshim.SyncHook = nil
+		if r := recover(); r != nil {
+			if _, stall := r.(schedStall); stall {
+				s.yield = make(chan struct{}) // the abandoned threads keep their old channel: they can never disturb a later run
+				return
+			}
+			panic(r)
+		}
 	}()
 	// start: run every thread up to its first operation, in id order (initial local steps commute)
 	for i := 0; i < len(s.threads); i++ {
